@@ -444,6 +444,7 @@ func genTrieCase(r *core.Rng, depth int) *TrieCase {
 func RunC15(ctx *core.Ctx, r *core.Rng) {
 	hookBase := keyOrderTotal
 	tr := &trieTrace{states: map[uint64]struct{}{}, trans: map[uint64]struct{}{}, probes: ctx.Stats}
+	sweepSlices := trieSweepSlices(ctx.Tier)
 	if ctx.Run() < sweepSlices {
 		runC15Sweep(ctx, tr, ctx.Run())
 		return
@@ -475,41 +476,113 @@ func RunC15(ctx *core.Ctx, r *core.Rng) {
 	ctx.Stats.Add("keyorder_hook_calls", int64(keyOrderTotal-hookBase))
 }
 
-// The fixed sweep: all histories of depth <= 4 over 14 operations on {a,b},
-// strings of length <= 2 (38 416 histories of depth 4, which contain all the
-// shorter ones as prefixes since every step is observed), cut into slices.
-const sweepSlices = 14
+// The fixed sweeps. Every step of a history is observed, so the histories of
+// depth d contain all shorter ones as prefixes.
+//
+//	quick:    all 14^4 = 38 416 histories of depth 4 over 14 operations on {a,b}
+//	          (add/del of a, b, aa, ab, ba, bb; restart; add of the empty sequence);
+//	thorough: depth 5 over the same 14 operations (537 824 histories) and depth 4 over
+//	          the 26 operations on {a,b,c} with sequences of length <= 2 (456 976).
+type trieSweep struct {
+	ops    []TrieOp
+	alpha  string
+	depth  int
+	prefix int // how many leading operations a slice fixes
+}
 
-var sweepOps = func() []TrieOp {
+func sweepOpsOver(alpha string) []TrieOp {
+	var words []string
+	for _, a := range alpha {
+		words = append(words, string(a))
+	}
+	for _, a := range alpha {
+		for _, b := range alpha {
+			words = append(words, string(a)+string(b))
+		}
+	}
 	var ops []TrieOp
-	for _, w := range []string{"a", "b", "aa", "ab", "ba", "bb"} {
+	for _, w := range words {
 		ops = append(ops, TrieOp{Op: "add", Arg: []byte(w)}, TrieOp{Op: "del", Arg: []byte(w)})
 	}
 	return append(ops, TrieOp{Op: "restart"}, TrieOp{Op: "add", Arg: []byte{}})
-}()
+}
+
+var (
+	sweepQuick    = []trieSweep{{sweepOpsOver("ab"), "ab", 4, 1}}
+	sweepThorough = []trieSweep{{sweepOpsOver("ab"), "ab", 5, 2}, {sweepOpsOver("abc"), "abc", 4, 2}}
+)
+
+func (sw trieSweep) slices() int {
+	n := 1
+	for i := 0; i < sw.prefix; i++ {
+		n *= len(sw.ops)
+	}
+	return n
+}
+
+func trieSweeps(tier string) []trieSweep {
+	if tier == "thorough" {
+		return sweepThorough
+	}
+	return sweepQuick
+}
+
+func trieSweepSlices(tier string) int {
+	n := 0
+	for _, sw := range trieSweeps(tier) {
+		n += sw.slices()
+	}
+	return n
+}
 
 func runC15Sweep(ctx *core.Ctx, tr *trieTrace, slice int) {
-	n := len(sweepOps)
-	first := sweepOps[slice]
+	var sw trieSweep
+	for _, x := range trieSweeps(ctx.Tier) {
+		if slice < x.slices() {
+			sw = x
+			break
+		}
+		slice -= x.slices()
+	}
+	n := len(sw.ops)
+	idx := make([]int, sw.depth)
+	for i, s := sw.prefix-1, slice; i >= 0; i-- {
+		idx[i] = s % n
+		s /= n
+	}
 	count := 0
-	for i := 0; i < n; i++ {
-		for j := 0; j < n; j++ {
-			for k := 0; k < n; k++ {
-				tc := &TrieCase{Alphabet: []byte("ab"), MaxLen: 2, Ops: []TrieOp{first, sweepOps[i], sweepOps[j], sweepOps[k]},
-					KeyOrder: &KeyOrder{Mode: []string{"sorted", "reversed", "perm"}[(i+j+k)%3], Seed: uint64(i*n*n + j*n + k)}}
-				c := &Case{Clause: "C15", Trie: tc}
-				v := execC15Trace(c, tr)
-				ctx.Eval()
-				count++
-				if v != nil {
-					ctx.EvS(v.Key)
-					report(ctx, c, v)
-				}
+	for {
+		ops := make([]TrieOp, sw.depth)
+		sum := 0
+		for i, k := range idx {
+			ops[i] = sw.ops[k]
+			sum += k
+		}
+		tc := &TrieCase{Alphabet: []byte(sw.alpha), MaxLen: 2, Ops: ops,
+			KeyOrder: &KeyOrder{Mode: []string{"sorted", "reversed", "perm"}[sum%3], Seed: uint64(count)}}
+		c := &Case{Clause: "C15", Trie: tc}
+		v := execC15Trace(c, tr)
+		ctx.Eval()
+		count++
+		if v != nil {
+			ctx.EvS(v.Key)
+			report(ctx, c, v)
+		}
+		// next combination of the free positions
+		i := sw.depth - 1
+		for ; i >= sw.prefix; i-- {
+			idx[i]++
+			if idx[i] < n {
+				break
 			}
+			idx[i] = 0
+		}
+		if i < sw.prefix {
+			break
 		}
 	}
 	ctx.EvU(uint64(slice), uint64(count))
-	ctx.Stats.Add("exhaustive/sweep_histories_depth4_over_ab", int64(count))
+	ctx.Stats.Add(fmt.Sprintf("exhaustive/sweep_histories_depth%d_over_%s", sw.depth, sw.alpha), int64(count))
 	for s := range tr.states {
 		ctx.Seen(s)
 	}
